@@ -3,6 +3,7 @@ package main
 import (
 	"go/constant"
 	"go/token"
+	"go/types"
 	"strings"
 
 	"golang.org/x/tools/go/ssa"
@@ -16,11 +17,12 @@ func init() {
 			Explanation: "Narrow structural rules over the SSA of internal/ztest/diff.go. Decided, and only this: " +
 				"(1) in Diff and in DiffMatch both texts pass through the same normalisation chain before they are compared (the pair returned by the option step, then TrimSpace, then the line splitter) - a necessary condition for 'empty exactly on equality after trimming'; " +
 				"(2) return discipline: Diff returns \"\" only when the computed diff is empty and otherwise a string with a non-empty constant prefix; DiffMatch returns \"\" only under the result of a full-match (^...$) regular expression on the first text, and otherwise never \"\"; " +
-				"(3) the context width handed to the hunk grouping is the constant 3 from both entry points. " +
+				"(3) the context width handed to the hunk grouping is the constant 3 from both entry points; " +
+				"(4) the hunk grouping ends a group exactly where an unchanged run is longer than twice the context parameter (linear form of the threshold = 2n). " +
 				"NOT decided (the core of the statement): that the edit script is correct (applying it to the first text yields the second), hunk-header arithmetic, the <= 3 context bound as a value, placeholder expansion - a round-trip property over all pairs of sequences, out of reach of a sound static argument here; an exhaustive small-scope enumeration would be exploration, a different technique.",
 			Rule:        "one obligation per entry point and fact",
 			Assumptions: []string{"go/types + go/ssa", "regexp and strings behave as documented"},
-			MinObl:      6,
+			MinObl:      7,
 		},
 		Configs: tiered(linuxQuick, linuxQuick),
 		Run:     runC20,
@@ -34,6 +36,7 @@ func runC20(p *Program, e *Engine, r *Result, tier string) {
 	}
 	e.InlinePkg = p.Ztest
 	a := &An{P: p, E: e, R: r, walks: map[*ssa.Function]*Walker{}}
+	c20Grouping(a)
 	for _, name := range []string{"Diff", "DiffMatch"} {
 		fn := p.Ztest.Func(name)
 		if fn == nil {
@@ -208,4 +211,111 @@ func fullMatchRegexp(at *Atom) bool {
 	}
 	p := at.Ctx.path(rc.Call.Args[0])
 	return strings.Contains(p, `c:"^"`) && strings.Contains(p, `c:"$"`)
+}
+
+// c20Grouping: hunks are split where an unchanged run is longer than the context kept on BOTH sides of it: the test that
+// ends a group compares the length of the run (a difference of two positions) with exactly twice the context parameter.
+// With a smaller threshold two hunks overlap; with a larger one changes that are further apart than 2n are merged with
+// more than n lines of context between them.
+func c20Grouping(a *An) {
+	n := 0
+	for _, fn := range a.P.srcFuncs(a.P.Ztest) {
+		var ctxParams []ssa.Value
+		for _, prm := range fn.Params {
+			if b, ok := prm.Type().Underlying().(*types.Basic); ok && b.Kind() == types.Int {
+				ctxParams = append(ctxParams, prm)
+			}
+		}
+		if len(ctxParams) == 0 {
+			continue
+		}
+		isCtx := func(v ssa.Value) bool {
+			v = stripConv(v)
+			for _, p := range ctxParams {
+				if v == p {
+					return true
+				}
+			}
+			// the parameter after its default was applied: phi(param, const)
+			if ph, ok := v.(*ssa.Phi); ok {
+				hasParam := false
+				for _, e := range ph.Edges {
+					if _, isK := e.(*ssa.Const); isK {
+						continue
+					}
+					if !isCtxParam(ctxParams, e) {
+						return false
+					}
+					hasParam = true
+				}
+				return hasParam
+			}
+			return false
+		}
+		for _, b := range fn.Blocks {
+			for _, in := range b.Instrs {
+				bin, ok := in.(*ssa.BinOp)
+				if !ok {
+					continue
+				}
+				x, t, op := bin.X, bin.Y, bin.Op
+				switch op {
+				case token.LSS:
+					x, t, op = t, x, token.GTR
+				case token.LEQ:
+					x, t, op = t, x, token.GEQ
+				}
+				if op != token.GTR && op != token.GEQ {
+					continue
+				}
+				lx, lt := lin(x), lin(t)
+				if !lx.ok || !lt.ok || len(lx.terms) != 2 || lx.k != 0 || len(lt.terms) != 1 {
+					continue
+				}
+				plus, minus := 0, 0
+				for _, c := range lx.terms {
+					if c == 1 {
+						plus++
+					}
+					if c == -1 {
+						minus++
+					}
+				}
+				if plus != 1 || minus != 1 {
+					continue
+				}
+				var coef int64
+				isN := false
+				for v, c := range lt.terms {
+					if isCtx(v) {
+						isN, coef = true, c
+					}
+				}
+				if !isN {
+					continue
+				}
+				n++
+				want := int64(0)
+				if op == token.GEQ {
+					want = 1
+				}
+				ok2 := coef == 2 && lt.k == want
+				a.R.ob("C20.4", "grouping-threshold@"+fn.Name(), "a group of changes ends where an unchanged run is longer than the context kept on both sides of it (2 x context): hunks neither overlap nor carry more than the context between two changes", a.P.instrPos(bin), ok2,
+					sprintf("run length compared with %d x context %+d (%s)", coef, lt.k, bin.Op))
+			}
+		}
+	}
+	if n == 0 {
+		a.R.fail("anchor unresolved: the comparison of an unchanged run's length with the context parameter (hunk grouping)")
+	}
+}
+
+func isCtxParam(ps []ssa.Value, v ssa.Value) bool {
+	v = stripConv(v)
+	for _, p := range ps {
+		if v == p {
+			return true
+		}
+	}
+	return false
 }
